@@ -413,10 +413,16 @@ where
 	// First attempt to spend without change
 	let mut fee = tx_fee(coins.len(), 1, 1);
 	let mut total: u64 = coins.iter().map(|c| c.value).sum();
-	let mut amount_with_fee = match amount_includes_fee {
-		true => amount,
-		false => amount + fee,
+	// amount + fee must not wrap around
+	let with_fee = |fee: u64| -> Result<u64, Error> {
+		match amount_includes_fee {
+			true => Ok(amount),
+			false => amount.checked_add(fee).ok_or_else(|| {
+				Error::GenericError("Transaction amount plus fee exceeds the numeric limit".into())
+			}),
+		}
 	};
+	let mut amount_with_fee = with_fee(fee)?;
 
 	if total == 0 {
 		return Err(Error::NotEnoughFunds {
@@ -442,10 +448,7 @@ where
 	// We need to add a change address or amount with fee is more than total
 	if total != amount_with_fee {
 		fee = tx_fee(coins.len(), num_outputs, 1);
-		amount_with_fee = match amount_includes_fee {
-			true => amount,
-			false => amount + fee,
-		};
+		amount_with_fee = with_fee(fee)?;
 
 		// Here check if we have enough outputs for the amount including fee otherwise
 		// look for other outputs and check again
@@ -473,10 +476,7 @@ where
 			.1;
 			fee = tx_fee(coins.len(), num_outputs, 1);
 			total = coins.iter().map(|c| c.value).sum();
-			amount_with_fee = match amount_includes_fee {
-				true => amount,
-				false => amount + fee,
-			};
+			amount_with_fee = with_fee(fee)?;
 		}
 	}
 	// If original amount includes fee, the new amount should
